@@ -285,34 +285,51 @@ def has_ref(ast):
     raise ValueError(ast)
 
 
-def mirror(ast, roots):
+class TooBig(Exception):
+    """raised by mirror(limit=...) when an int result exceeds the generator's size bound"""
+
+
+def mirror(ast, roots, limit=None):
+    v = _mirror(ast, roots, limit)
+    return v
+
+
+def _chk(v, limit):
+    if limit is not None and isinstance(v, int) and not isinstance(v, bool) and abs(v) > limit:
+        raise TooBig()
+    return v
+
+
+def _mirror(ast, roots, limit):
     t = ast[0]
     if t == "loc":
         return get_loc(loc_key(ast), roots)
     if t == "lit":
         return dec(ast[1])
     if t == "bin":
-        a = mirror(ast[2], roots)
-        b = mirror(ast[3], roots)
+        a = _mirror(ast[2], roots, limit)
+        b = _mirror(ast[3], roots, limit)
         if ast[1] in NAN_GUARD and (has_ref(ast[2]) or has_ref(ast[3])):
             try:
-                return BINOPS[ast[1]](a, b)
+                return _chk(BINOPS[ast[1]](a, b), limit)
             except ZeroDivisionError:
                 return float("nan")
-        return BINOPS[ast[1]](a, b)
+        return _chk(BINOPS[ast[1]](a, b), limit)
     if t == "un":
-        return UNOPS[ast[1]](mirror(ast[2], roots))
+        return UNOPS[ast[1]](_mirror(ast[2], roots, limit))
     if t == "bi":
-        return BUILTINS[ast[1]](mirror(ast[2], roots), *[mirror(p, roots) for p in ast[3]])
+        return _chk(BUILTINS[ast[1]](_mirror(ast[2], roots, limit),
+                                     *[_mirror(p, roots, limit) for p in ast[3]]), limit)
     if t == "call":
-        f = mirror(ast[1], roots)
-        return f(*[mirror(a, roots) for a in ast[2]], **{k: mirror(a, roots) for k, a in ast[3]})
+        f = _mirror(ast[1], roots, limit)
+        return _chk(f(*[_mirror(a, roots, limit) for a in ast[2]],
+                      **{k: _mirror(a, roots, limit) for k, a in ast[3]}), limit)
     if t == "item":
-        return mirror(ast[1], roots)[mirror(ast[2], roots)]
+        return _mirror(ast[1], roots, limit)[_mirror(ast[2], roots, limit)]
     if t == "eq":
-        return mirror(ast[1], roots) == mirror(ast[2], roots)
+        return _mirror(ast[1], roots, limit) == _mirror(ast[2], roots, limit)
     if t == "neq":
-        return mirror(ast[1], roots) != mirror(ast[2], roots)
+        return _mirror(ast[1], roots, limit) != _mirror(ast[2], roots, limit)
     raise ValueError(ast)
 
 
